@@ -27,6 +27,7 @@ ASSUMPTIONS = [
 ]
 POOL = ["0", "1", "2", "3", "7", "10", "16", "255", "1000", "65536", "0.5", "0.25", "0.1", "1.5", "2.75", "0.001", "1000000",
         "123.456", "99.9", "3.14159", "1e-05", "2147483647", "4503599627370496", "0.3", "12345.678"]
+BIGINTS = ["123456789", "1103515245", "2147483647", "4294967291", "999999937", "94906267", "67108865", "3037000507"]
 INTS = ["0", "1", "2", "3", "5", "7", "12", "255", "1000", "65535", "1048575"]
 SHIFTS = ["0", "1", "2", "5", "16", "30"]
 BOOLS = ["0", "1"]
@@ -115,6 +116,17 @@ def gen_num(draw, d):
             # they are never the right operand of % or /)
             return E("(" + ch([f'HASH("{n}")' for n in HASH_NAMES]) + " " + ch(["%", "/", "-", "+"]) + " {})", [lit(ch(NONZERO))])
         return E("({} " + ch(["+", "-", "*"]) + " " + ch(["pi"] + [f'HASH("{n}")' for n in HASH_NAMES]) + ")", [gen_num(draw, d + 1)])
+    if k < 99:
+        # integer constants whose exact product / power / sum does not fit into the 53 bits of a double: the chip
+        # rounds the intermediate result, so the folder must round it too before it reduces or subtracts
+        form = draw(st.integers(0, 3))
+        if form == 0:
+            return E("(({} * {} + {}) % {})", [lit(ch(BIGINTS)), lit(ch(BIGINTS)), lit(ch(INTS)), lit(ch(["2147483648", "1000003", "7", "65536", "1000"]))])
+        if form == 1:
+            return E("(({} * {}) - ({} * {} - {}))", [lit(ch(BIGINTS)), lit(ch(BIGINTS)), lit(ch(BIGINTS)), lit(ch(BIGINTS)), lit(ch(INTS))])
+        if form == 2:
+            return E("(({} ** {}) % {})", [lit(ch(["3", "7", "10", "5"])), lit(ch(["30", "40", "25", "36"])), lit(ch(["7", "1000", "11", "64"]))])
+        return E("(({} + {}) - {})", [lit(ch(["9007199254740992", "18014398509481984"])), lit(ch(["1", "3", "5"])), lit(ch(["9007199254740992", "18014398509481984"]))])
     return lit(ch(POOL))
 
 
